@@ -384,6 +384,59 @@ func containsFuncType(t types.Type, depth int) bool {
 	return false
 }
 
+// localLiteralTable: v is a slice of an array allocated and filled in fn itself — the lowering of a
+// composite literal `[]T{…}` written in this function (a table of cases), as opposed to a slice that
+// arrives through a parameter or a request field.
+func localLiteralTable(v ssa.Value, fn *ssa.Function) bool {
+	sl, ok := v.(*ssa.Slice)
+	if !ok || sl.Low != nil || sl.High != nil {
+		return false
+	}
+	al, ok := sl.X.(*ssa.Alloc)
+	if !ok || al.Parent() != fn {
+		return false
+	}
+	pt, ok := al.Type().Underlying().(*types.Pointer)
+	if !ok {
+		return false
+	}
+	_, isArr := pt.Elem().Underlying().(*types.Array)
+	return isArr
+}
+
+// dataOnlyLoop: the body of the loop at header h only shuffles data — no static call except builtins
+// and conversions, no interface method call, no go/defer/send/select, no store outside locals. Calls of
+// function *values* (a conversion closure handed to a map/filter helper) are allowed. Such a loop over
+// a sequence whose elements are known is evaluated element by element.
+func (x *Explorer) dataOnlyLoop(fn *ssa.Function, h *ssa.BasicBlock) bool {
+	li := x.loopsOf(fn)
+	for b := range li.body[h] {
+		for _, in := range b.Instrs {
+			switch y := in.(type) {
+			case *ssa.Call:
+				if y.Call.IsInvoke() {
+					return false
+				}
+				if _, isB := y.Call.Value.(*ssa.Builtin); isB {
+					continue
+				}
+				if y.Call.StaticCallee() != nil {
+					if _, isClosure := y.Call.Value.(*ssa.MakeClosure); !isClosure {
+						return false
+					}
+				}
+			case *ssa.Go, *ssa.Defer, *ssa.Send, *ssa.Select, *ssa.Panic, *ssa.MapUpdate:
+				return false
+			case *ssa.Store:
+				if _, isG := y.Addr.(*ssa.Global); isG {
+					return false
+				}
+			}
+		}
+	}
+	return true
+}
+
 // constantTrip: the loop at header b runs a small constant number of times that is known now — its exit
 // test compares (index φ + c) with a value that evaluates to a constant ≤ 8, the φ starting from a
 // constant (the shape of `for i := range <literal slice>` and `for i := 0; i < 3; i++`).
@@ -429,9 +482,10 @@ func (x *Explorer) constantTrip(fr *Frame, st *State, b, pred *ssa.BasicBlock) b
 		if in, isInstr := v.(ssa.Instruction); isInstr && in.Block() == b {
 			return false // computed inside the header: not known before the loop
 		}
-		// only tables of code are unrolled — a literal slice whose elements carry function values (a
-		// table of steps / cases). Loops over data stay symbolic: one iteration stands for all, and the
-		// path count stays a sum instead of a product.
+		// unrolled are: tables of code (a literal slice whose elements carry function values), tables of
+		// cases written as a literal in this very function, and loops that only shuffle data (map / filter
+		// helpers) — each only when the length is a known small constant now. Loops over request data
+		// stay symbolic: one iteration stands for all, and the path count stays a sum instead of a product.
 		call, isCall := v.(*ssa.Call)
 		if !isCall || len(call.Call.Args) != 1 {
 			return false
@@ -446,7 +500,10 @@ func (x *Explorer) constantTrip(fr *Frame, st *State, b, pred *ssa.BasicBlock) b
 		case *types.Array:
 			et = tt.Elem()
 		}
-		if et == nil || !containsFuncType(et, 0) {
+		if et == nil {
+			return false
+		}
+		if !containsFuncType(et, 0) && !localLiteralTable(call.Call.Args[0], fr.fn) && !x.dataOnlyLoop(fr.fn, b) {
 			return false
 		}
 		k, isK := x.eval(fr, st, v).(*KConst)
